@@ -110,4 +110,36 @@ def twoCycles (f : RunFn) (start : Rat) (grant : Nat) (collectorFirst : Bool) : 
   let r2 := f.run start2 grant
   r2.foldl collect best1
 
+/-! ### (4) the per-cycle barrier of deterministic mode -/
+
+/-- The dispatcher and its workers in deterministic mode: `cur` = the cycle being spawned, `spawned` = workers started in
+it, `active` = the cycles of the workers still running, `atBarrier` = the dispatcher sits in `waitGroup.Wait()`. -/
+structure Cyc where
+  cur       : Nat := 1
+  spawned   : Nat := 0
+  active    : List Nat := []
+  atBarrier : Bool := false
+deriving DecidableEq, Repr
+
+/-- `skipBarrier = false` is the code; `true` lets the dispatcher go on to the next cycle without waiting (what a seeded
+change did while the next cycle's runs still get start solutions). -/
+inductive CStep (runs : Nat) (skipBarrier : Bool) : Cyc → Cyc → Prop
+  | spawn (s : Cyc) (h1 : s.atBarrier = false) (h2 : s.spawned < runs) :
+      CStep runs skipBarrier s { s with spawned := s.spawned + 1, active := s.cur :: s.active }
+  | cycleEnd (s : Cyc) (h1 : s.atBarrier = false) (h2 : s.spawned = runs) (h3 : skipBarrier = false) :
+      CStep runs skipBarrier s { s with atBarrier := true }
+  | cycleEndSkipping (s : Cyc) (h1 : s.atBarrier = false) (h2 : s.spawned = runs) (h3 : skipBarrier = true) :
+      CStep runs skipBarrier s { s with cur := s.cur + 1, spawned := 0 }
+  | workerEnds (s : Cyc) (c : Nat) (h : c ∈ s.active) :
+      CStep runs skipBarrier s { s with active := s.active.erase c }
+  | release (s : Cyc) (h1 : s.atBarrier = true) (h2 : s.active = []) :
+      CStep runs skipBarrier s { s with cur := s.cur + 1, spawned := 0, atBarrier := false }
+
+inductive CReach (runs : Nat) (skipBarrier : Bool) : Cyc → Prop
+  | init : CReach runs skipBarrier {}
+  | step (s t : Cyc) (h : CReach runs skipBarrier s) (st : CStep runs skipBarrier s t) : CReach runs skipBarrier t
+
+/-- Cycles do not overlap: every running worker belongs to the cycle being spawned. -/
+def NoOverlap (s : Cyc) : Prop := ∀ c ∈ s.active, c = s.cur
+
 end NR.Par
